@@ -94,9 +94,10 @@ def run(ctx):
             if len(ks) == 1 and len(ls) == 1 and values.strip_payload(W.expand(ls[0][1])) == values.strip_payload(W.expand(csrc[1][2][0])):
                 prefix_limit = ks[0]
                 csrc = csrc[1][2][0]
-    if isinstance(csrc, tuple) and csrc and csrc[0] == "index" and csrc[2][0] == "agg" and str(csrc[2][1]).endswith("RangeTo::RangeTo") and len(csrc[2][2]) == 1:
-        # `&ver[..min(ver.len(), k)]`: the same prefix
-        mid = W.expand(csrc[2][2][0])
+    if isinstance(csrc, tuple) and csrc and csrc[0] == "index" and csrc[2][0] == "agg" and \
+            ((str(csrc[2][1]).endswith("RangeTo::RangeTo") and len(csrc[2][2]) == 1) or (str(csrc[2][1]).endswith("Range::Range") and csrc[2][2][0] == ("int", 0))):
+        # `&ver[..min(ver.len(), k)]` / `&ver[0..min(ver.len(), k)]`: the same prefix
+        mid = W.expand(csrc[2][2][-1])
         if is_call(mid) and callee_name(mid[1]) == "min":
             ks = [a[1] for a in mid[2] if isinstance(a, tuple) and a[0] == "int"]
             ls = [a for a in mid[2] if isinstance(a, tuple) and a[0] == "len"]
